@@ -9,22 +9,28 @@ import re
 from lib.common import COQ, REPO, enc_str, model_run, src_hashes, write_if_changed
 
 PID = "C20"
-RULE = ("gen: source translation (Gen/RawSrc.v: the raw_enabled block of Parser.parse and the head of MockIncludeDirective.run, "
-        "statement by statement, proved equal to the model: C20_src_is_model) + ast table of every nodes.raw(...) construction site, the position of the file_insertion_enabled test in "
-        "MockIncludeDirective.run and the shape/position of the raw_enabled loop in Parser.parse (-> coq/Gen/RawSites.v, "
-        "theorems re-checked against it); correspondence: the extracted loop model vs the real loop of Parser.parse run on "
-        "generated docutils trees (raw nodes of several formats at any depth, also nested), the include prefix model vs "
-        "MockIncludeDirective on (setting, file exists) with a recorded file-system trace; search: generated documents "
-        "instantiating every raw-capable and file-capable construct with sentinel payloads/files under the 2x2 settings, "
-        "oracle = no raw node / no raw payload in the html5 output / one warning per refusal / no read of a sentinel file / "
-        "sentinel content absent / marker paragraphs still rendered; non-trivial = document with >= 1 raw- or file-capable "
-        "construct under a disabling setting")
+RULE = ("gen: source translation (Gen/RawSrc.v: the raw_enabled block of Parser.parse and MockIncludeDirective.run from its first "
+        "statement to the nested_render_text call, statement by statement with alpha-normalised locals, proved equal to the model: "
+        "C20_src_is_model) + ast tables regenerated on every run: every nodes.raw(...) construction site with its route into the tree, "
+        "the position of the file_insertion_enabled test, the shape/position of the raw_enabled loop (Gen/RawSites.v) and the 19 "
+        "places where a document/settings/state/inliner/directive instance is handed to docutils with the expression providing it "
+        "(Gen/SettingsSites.v); correspondence: the extracted loop model vs the real loop of Parser.parse run on generated docutils "
+        "trees (raw nodes of several formats at any depth, also nested), the include prefix model vs MockIncludeDirective on "
+        "(setting, file exists, option variant, argument spelling: relative, absolute, <standard>, </abs>, <../..>) with recorded "
+        "file-system trace and record_dependencies; search: generated documents instantiating every raw-capable and file-capable "
+        "construct with sentinel payloads/files under the 2x2 settings, oracle = no raw node / no raw markup in the html5 output / "
+        "one refusal per raw node / no access to a sentinel file (open, read_text, FileInput, record_dependencies) / sentinel content "
+        "absent / >= 1 refusal per file construct / marker paragraphs still rendered / the settings object every docutils directive, "
+        "role call and rST parse sees IS the document's; non-trivial = document with >= 1 raw- or file-capable construct under a "
+        "disabling setting")
 TRUSTED = ["coq/Nest/Raw.v is a hand transcription of the raw_enabled loop of Parser.parse and of the prefix of "
            "MockIncludeDirective.run; gen/c20_rawsites.py recognises how a nodes.raw(...) site reaches the tree "
            "(self.current_node.append in a render method; default_html -> html_to_nodes -> render_html_block)",
            "gen/c20_src.py + gen/c06_walk.py: the statement mapping (RULES tables) from the raw_enabled block of Parser.parse and "
            "the head of MockIncludeDirective.run to Gallina over Nest/Raw.v (traverse_raw, parent_replace, fs trace events); "
            "one-line assignments without a file-system call are skipped as bookkeeping",
+           "gen/c20_settings.py: the classification of hand-over sites (PMain/POptions/PRenderer/PSelf/PSettings/PMock/POther) and "
+           "site_shares_settings in Nest/Raw.v as the reading of 'the settings object reachable from it is the main document's'",
            "in-process recording of builtins.open / io.open / pathlib.Path.read_text,read_bytes,open / docutils.io.FileInput",
            "docutils html5 writer (the written output that is searched for sentinel markup)"]
 ORACLES = {
@@ -690,14 +696,25 @@ def replay(ctx, data):
     return 0 if ok else 1
 
 
-LEVEL_TEXT = ("Proof (Coq): the post-processing loop of Parser.parse, modelled on rose trees, leaves no raw node of any format "
-              "at any depth (C20_no_raw_survives), keeps every other node in place and order with exactly one warning per "
-              "removed raw node (C20_rest_untouched); every site of the package that constructs a raw node puts it into the "
-              "tree before the loop, and the loop has the modelled shape and position (C20_all_raw_in_tree, finite regenerated "
-              "table); with file insertion disabled the include directive raises before any file-system operation and the "
-              "other blocks are rendered as without it (C20_include_refuses_before_io). Tie: regenerated site table, loop model "
-              "vs the real loop on generated trees, include prefix vs the real directive with a recorded FS trace, and the "
-              "sentinel documents under the 2x2 settings on every run.")
-LEVEL_NOTE = ("Partial: docutils' own raw role/directive, csv-table :file:, raw :file: and the rST include inside eval-rst honour "
-              "the settings by docutils code (oracle O_docutils_checks, exercised by the sentinel documents, not modelled); the "
-              "property is decided for the docutils front end only.")
+LEVEL_TEXT = ("Proof (Coq 8.16, 9 theorems, all closed under the global context). Proved in full on the model Nest/Raw.v: the "
+              "post-processing loop of Parser.parse leaves no raw node of any format at any depth (C20_no_raw_survives) and keeps "
+              "every other node in place and order with exactly one warning per removed raw node (C20_rest_untouched); with file "
+              "insertion disabled the include directive's run() returns the level-2 error before any file-system operation, for every "
+              "argument spelling (ordinary path, <standard include>), and the other blocks render as without it "
+              "(C20_include_refuses_before_io, C20_include_reads_when_enabled). Finite regenerated tables (bounds in the statements): "
+              "every nodes.raw construction site puts its node into the tree before the loop, the loop has the modelled shape and "
+              "position (C20_all_raw_in_tree, 6 sites); at each of the 19 places where MyST hands a document/settings/state/inliner/"
+              "directive instance to docutils, the settings object reachable from it is the main document's (C20_settings_shared). "
+              "Tied to code regenerated from the source on every run (Gen/RawSrc.v: the raw_enabled block of Parser.parse and "
+              "MockIncludeDirective.run from its first statement to the nested_render_text call, statement by statement) by refinement "
+              "proofs: C20_src_is_model, C20_no_raw_survives_src, C20_include_refuses_before_io_src. Further tie on every run: the real "
+              "loop vs the extracted model on generated trees, the include prefix vs the real directive with a recorded file-system "
+              "trace, sentinel documents for every raw-capable and file-capable construct under the 2x2 settings with a dynamic "
+              "identity check of the settings object docutils code sees.")
+LEVEL_NOTE = ("Partial: docutils' own raw role/directive, derived roles, csv-table :file:, raw :file: and the rST include inside eval-rst "
+              "honour the settings by docutils code (oracle O_docutils_checks) - tightened structurally by C20_settings_shared and "
+              "dynamically by O_settings_identity, not modelled; document.traverse / reporter.warning are oracles (O_traverse, "
+              "O_reporter) exercised by the loop correspondence; the statement mappings of gen/c20_src.py and the site "
+              "classification of gen/c20_rawsites.py / c20_settings.py are trusted; decided for the docutils front end only (the Sphinx "
+              "front end has no such switch); the written output checked is html5; _docs.py's section-numbering transform (project "
+              "documentation build) is excluded by name. No open finding, no fix commit for C20.")
